@@ -928,6 +928,9 @@ func genRecipe(t *rapid.T, thr float64) recipe {
 			"zqpre-\nzqfix\n2019-03-14\n",
 			"zqpre-\nzqfix\nzqsection 2. zqfoo zqbar\n",
 			"zqpre-\r\nzqfix\r\nCopyright (c) 2020 Example Corp\r\n",
+			"Copyright (c) 2020 The zqfoo-\nzqbar Authors\n", // the notice itself is wrapped with a hyphen
+			"Copyright (c) 2020 The zqfoo-\nzqbar Authors\n",
+			"Copyright (c) 2020 The zqfoo-\nzqbar\n",
 		}, "hyphenNoticePiece"))}
 		if lib.Bool(t, "pieceFirst") {
 			r.Segs = append([]seg{piece}, r.Segs...)
